@@ -4,7 +4,7 @@ Spec (ECMA-262 7.3 / spec/es5_lines.py): the column of an offset is  offset - st
 `newline_idx` is the list of line-start offsets seen so far (index k = start of line k+1)."""
 import z3
 
-from vf.pyvc.dsl import Contract, Obj, Int, Str, ListOf, Const, OneOf
+from vf.pyvc.dsl import Contract, Obj, Int, Str, ListOf, Const, OneOf, PObj, PExt, Helper
 
 MODULE = 'calmjs.parse.lexers.es5'
 
@@ -32,4 +32,91 @@ def build(module):
                           "token.type == (%s 'ID')" % cases],
                  modifies=['token.type']),
     ]
+    cs += token_bookkeeping(module)
     return cs, [], {}
+
+
+def lt_free_types(module):
+    """token types whose pattern provably matches no text containing a line terminator (vf.charclass.pattern_may_match
+    on the real rule patterns; keyword types share the identifier rule)"""
+    import re
+    from vf import charclass as cc
+    Lexer = module.Lexer
+    LT = '\n\r\u2028\u2029'
+    rules = {}
+    for name in dir(Lexer):
+        if not name.startswith('t_') or name.endswith(('_ignore', '_error')):
+            continue
+        v = getattr(Lexer, name)
+        pat = v if isinstance(v, str) else getattr(v, 'regex', None) or getattr(v, '__doc__', None)
+        if pat:
+            rules.setdefault(name.split('_')[-1] if name.split('_')[1] in ('regex',) else name[2:], []).append(pat)
+    free = set()
+    lt_free_types.produced = set()      # the types ply's token() can return: those with a rule
+    for t in Lexer.tokens:
+        pats = rules.get(t)
+        if pats is None and t in Lexer.keywords_dict.values():
+            pats = rules.get('ID')
+        if pats:
+            lt_free_types.produced.add(t)
+        if pats and not any(cc.pattern_may_match(p_, re.VERBOSE, LT) for p_ in pats):
+            free.add(t)
+    return free
+
+
+def token_bookkeeping(module):
+    """Lexer.get_lexer_token: every token ply returns gets its column from the line-start table as it stands
+    *before* the token, and then the table is advanced over the line terminators inside the token -- unless the
+    token's type is one whose pattern provably cannot match a line terminator."""
+    import z3
+    from vf.pyvc.dsl import SBool
+    cs = []
+    rec = {}
+    free = sorted(lt_free_types(module))
+    alltypes = sorted(lt_free_types.produced)
+    for kind in ('token', 'end of input'):
+        class LexerSelf(object):
+            def __init__(self, kind=kind):
+                self.kind = kind
+
+            def make(self, name):
+                rec.clear()
+                rec['log'] = []
+                o = PObj(module.Lexer, name='self')
+                inner = PObj(object, name='plylexer')
+                tok = None
+                if self.kind == 'token':
+                    tok = PObj(object, name='tok')
+                    tok.fields.update(type=Str.fresh('tok_type'), value=Str.fresh('tok_value'), lexpos=Int.fresh('tok_lexpos'),
+                                      lineno=Int.fresh('tok_lineno'))
+                rec['tok'] = tok
+                inner.fields['token'] = PExt('ply.lex.Lexer.token', lambda e, a, k: tok)
+
+                def colno(e, a, k):
+                    rec['log'].append(('colno', a[0]))
+                    rec['col'] = Int.fresh('colno')
+                    return rec['col']
+
+                def upd(e, a, k):
+                    rec['log'].append(('update', a[0]))
+                o.fields.update(lexer=inner, _get_colno=PExt('Lexer._get_colno', colno), _update_newline_idx=PExt('Lexer._update_newline_idx', upd))
+                return o
+
+        def one_of(eng, ty, names):
+            t = ty.t if hasattr(ty, 't') else z3.StringVal(ty)
+            return SBool(z3.Or(*[t == z3.StringVal(n) for n in names]))
+        if kind == 'token':
+            req = ['declared_type(the_token().type)']
+            ens = ['result is the_token()', 'call(0, "colno")', 'result.colno is column()', 'calls() <= 2',
+                   'call(1, "update") or (calls() == 1 and lt_free(result.type))']
+        else:
+            req = []
+            ens = ['result is None', 'calls() == 0']
+        cs.append(Contract(
+            MODULE + ':Lexer.get_lexer_token', params={'self': LexerSelf()}, requires=req, ensures=ens,
+            env={'the_token': Helper(lambda e: rec['tok']), 'calls': Helper(lambda e: len(rec['log'])),
+                 'call': Helper(lambda e, i, what: len(rec['log']) > i and rec['log'][i][0] == what and rec['log'][i][1] is rec['tok']),
+                 'column': Helper(lambda e: rec.get('col')),
+                 'lt_free': Helper(lambda e, ty: one_of(e, ty, free)), 'declared_type': Helper(lambda e, ty: one_of(e, ty, alltypes))},
+            notes=kind))
+    return cs
